@@ -10,12 +10,12 @@ def run(ctx):
     ctx.level = "model_checking"
     ctx.assumptions += ["identity assertions are created by the SDK (IdentityAssertionSigner + IdentityAssertionBuilder + X509CredentialHolder with the fixture credentials, ed25519 and es256); binding breaks are produced by a wrapping credential holder (signs a payload with an extra role; flips a signature byte) and by overwriting a stored assertion payload in the signed file",
                         "reads use core.decode_identity_assertions = false followed by Reader::post_validate_async(CawgValidator) (with the default true, post-validating a VALID identity assertion fails with AssertionDecoding: the reader has already replaced it by its JSON summary)",
-                        "not driven: padding fields of the identity assertion, trust settings for the CAWG credential (the fixture credential is reported cawg.x509.credential.untrusted in every case, which is not counted as a binding failure)"]
+                        "not driven: trust settings for the CAWG credential (the fixture credential is reported cawg.x509.credential.untrusted in every case, which is not counted as a binding failure)"]
     r = tlc_expect_ok(tlc("MC_Identity", "MC_Identity.cfg", name="mc_identity", workers=2, timeout=600), "MC Identity")
     ctx.add_tlc(r)
     vecs = tlc_expect_ok(tlc("MC_Identity", "MC_Identity_emit.cfg", name="identity_emit", workers=2, timeout=600, coverage=False), "emit").printed("VEC")
-    if len(vecs) != 24:
-        raise ToolError("expected 24 vectors, got %d" % len(vecs))
+    if len(vecs) != 33:
+        raise ToolError("expected 33 vectors, got %d" % len(vecs))
     algs = ["ed25519"] if ctx.quick else ["ed25519", "es256", "ps256"]
     runs, index = [], []
     for alg in algs:
@@ -30,6 +30,12 @@ def run(ctx):
                     rd["overwrite"] = "VHC33-ALPHA-PAYLOAD"
                 elif v["changed"] == "unreferenced":
                     rd["overwrite"] = "VHC33-GAMMA-PAYLOAD"
+                if v["changed"] == "padding":
+                    # every padding field at its first, middle and last byte: six reads for this vector
+                    for which in ("pad1", "pad2"):
+                        for pos in ("first", "middle", "last"):
+                            reads.append(dict(rd, name=len(index), pad={"which": which, "pos": pos})); index.append((dict(v, pad="%s:%s" % (which, pos)), alg))
+                    continue
                 reads.append(rd); index.append((v, alg))
             runs.append({"id": len(runs), "mode": mode, "refs": REFS[nrefs], "cawg_alg": alg, "reads": reads})
     p = vh(["c33-run"], stdin="\n".join(json.dumps(x) for x in runs), timeout=6000)
@@ -48,7 +54,9 @@ def run(ctx):
             v, alg = index[rd["name"]]
             n += 1
             read = rd["read"]
-            key = "%s:%s:refs%d" % (v["mode"], v["changed"], v["nrefs"])
+            key = "%s:%s:refs%d" % (v["mode"], v["changed"] + (":" + v["pad"] if v.get("pad") else ""), v["nrefs"])
+            if v.get("pad") and not rd.get("pad"):
+                continue        # this padding field does not exist in the assertion (nothing was changed)
             case = {"vector": v, "alg": alg, "read": read}
             if "panic" in read:
                 ctx.violation("panic:read", "CAWG validation panicked: %s" % read["panic"], case)
@@ -65,7 +73,7 @@ def run(ctx):
                     ctx.violation("intact-identity-flagged:%s" % key, "an intact SDK-created identity assertion is reported %s (validated=%s)" % (cawg_fail, cawg_ok), case)
             else:
                 if not cawg_fail:
-                    kind = "referenced-assertion-changed" if v["mode"] == "ok" else v["mode"]
+                    kind = ("padding:" + v["pad"] if v.get("pad") else "referenced-assertion-changed") if v["mode"] == "ok" else v["mode"]
                     ctx.violation("binding-break-without-cawg-code:%s" % kind, "%s: no cawg failure code is reported (other failures: %s)" % (key, sorted({c for k, c in codes if k == "failure"})), case)
             if v["manifest"] == "not-invalid" and state == "Invalid":
                 ctx.violation("cawg-failure-invalidates-manifest:%s" % key, "the C2PA manifest is reported Invalid although only the CAWG part is broken (failures %s)" % sorted({c for k, c in codes if k == "failure"}), case)
@@ -74,5 +82,5 @@ def run(ctx):
     ctx.cov["traces_validated_against_impl"] += n
     ctx.cov["evaluations"] = n
     ctx.cov["distinct_nontrivial"] = sum(1 for v in vecs if v["cawg"] == "failure")
-    ctx.cov["rule"] = "all 24 combinations of credential-holder behaviour x changed assertion x number of referenced assertions, x %d CAWG key type(s); non-trivial = combinations with a broken binding" % len(algs)
+    ctx.cov["rule"] = "all 33 combinations of credential-holder behaviour x changed part (stored assertions, padding bytes) x number of referenced assertions, x %d CAWG key type(s); non-trivial = combinations with a broken binding" % len(algs)
     ctx.sample({"vector": vecs[0]})
